@@ -1,8 +1,8 @@
 """Shared driver for SectionItems operation sequences (C13, C15): runs the real class and builds model requests."""
 import itertools
 
-NAMES = ["A", "a", "", "A:1", "B"]
-KEYS = ["A", "a", "A:1", "A:2", "UNKNOWN", "B", 0, 1, -1, 5]
+NAMES = ["A", "a", "", "A:1", "B", "1"]
+KEYS = ["A", "a", "A:1", "A:2", "UNKNOWN", "B", "1", 0, 1, -1, 5]
 
 
 def alphabet():
@@ -13,6 +13,8 @@ def alphabet():
     ops += [["setval", k] for k in ("A", "A:2", 0)]
     ops += [["get", m, add] for m in ("A", "Q") for add in (False, True)]
     ops += [["pop", i] for i in (0, -1, 3)]
+    ops += [["getdef", m, src, add] for m in ("Q", "a") for src in ("A", 0) for add in (False, True)]
+    ops += [["setattr", k] for k in ("A", "a", "B", "Q")]
     return ops
 
 
@@ -31,6 +33,8 @@ def with_values(seq):
             out.append(["setval", op[1], v])
         elif op[0] == "get":
             out.append(["get", op[1], v, op[2]])
+        elif op[0] == "setattr":
+            out.append(["setattr", op[1], v])
         else:
             out.append(list(op))
     return out
@@ -73,6 +77,15 @@ def apply_real(sec, op):
         elif op[0] == "get":
             it = sec.get(op[1], default=op[2], add=op[3])
             return [it.original_mnemonic, it.mnemonic, str(it.value)]
+        elif op[0] == "getdef":
+            try:
+                d = sec[op[2]]
+            except (KeyError, IndexError):
+                return "skipped"
+            it = sec.get(op[1], default=d, add=op[3])
+            return [it.original_mnemonic, it.mnemonic, str(it.value)]
+        elif op[0] == "setattr":
+            setattr(sec, op[1], op[2])
         return "ok"
     except KeyError:
         return "KeyError"
@@ -111,5 +124,5 @@ def sequences(run, quick_len, thorough_len, n_random_quick, n_random_thorough, m
     for _ in range(nrand):
         n = run.rng.randint(L + 1, maxlen)
         # bias towards growth so that long sequences keep non-trivial sections
-        seq = [run.rng.choice(ops[:11]) if run.rng.random() < 0.45 else run.rng.choice(ops) for _ in range(n)]
+        seq = [run.rng.choice(ops[:12]) if run.rng.random() < 0.45 else run.rng.choice(ops) for _ in range(n)]
         yield with_values(seq), "random"
